@@ -101,6 +101,11 @@ class Base(object):
     def finish(self):
         pass
 
+    def do_theory(self, op):
+        # questions to the core modules between the container operations (see world.op_theory): not judged,
+        # but whatever they leave behind in the theory layer must not change what the containers do next
+        world.World.op_theory(self, op)
+
 
 # ===========================================================================
 # C13  Bar time accounting
@@ -2310,7 +2315,9 @@ def execute(prop, program):
 
 
 def generate(rng, prop, tier):
-    return GEN[prop](rng, tier)
+    prog = GEN[prop](rng, tier)
+    prog["ops"] = world.sprinkle_theory(rng, prog["ops"], p_head=0.25, p_between=0.02)
+    return prog
 
 
 def simplify_op(prop, op):
